@@ -20,6 +20,10 @@ mod block_ex {
     #[path = "/repo/examples/fungible-blocklist/src/contract.rs"]
     pub mod c;
 }
+mod counter_ex {
+    #[path = "/repo/examples/pausable/src/contract.rs"]
+    pub mod c;
+}
 mod capped_ex {
     #[path = "/repo/examples/fungible-capped/src/contract.rs"]
     pub mod c;
@@ -95,9 +99,13 @@ pub enum Kind {
     BlockExample,
     BlockWrapper,
     CappedExample,
+    /// examples/pausable: `increment` is #[when_not_paused], `emergency_reset` is #[when_paused]
+    PausableCounter,
 }
 #[derive(Clone, Debug, Serialize, Deserialize)]
 pub enum Step {
+    Increment,
+    EmergencyReset,
     Pause { caller: usize, signed: bool },
     Unpause { caller: usize, signed: bool },
     List { user: usize, on: bool, operator: usize, signed: bool }, // allow / block (on) — disallow / unblock (off)
@@ -123,6 +131,7 @@ struct Model {
     allow: BTreeMap<(usize, usize), i128>,
     paused: bool,
     listed: BTreeSet<usize>,
+    counter: i32,
 }
 impl Model {
     fn b(&self, a: usize) -> i128 {
@@ -141,23 +150,41 @@ impl Model {
     fn apply(&mut self, cfg: &Cfg, s: &Step) -> bool {
         let k = cfg.kind;
         let gated = k == Kind::PausableExample && self.paused;
+        let pausable = matches!(k, Kind::PausableExample | Kind::PausableCounter);
+        if k == Kind::PausableCounter && !matches!(s, Step::Pause { .. } | Step::Unpause { .. } | Step::Increment | Step::EmergencyReset) {
+            return false; // the counter example has no token entry points
+        }
         match *s {
+            Step::Increment => {
+                if k != Kind::PausableCounter || self.paused {
+                    return false;
+                }
+                self.counter += 1;
+                true
+            }
+            Step::EmergencyReset => {
+                if k != Kind::PausableCounter || !self.paused {
+                    return false;
+                }
+                self.counter = 0;
+                true
+            }
             Step::Pause { caller, signed } => {
-                if k != Kind::PausableExample || !signed || caller != 0 || self.paused {
+                if !pausable || !signed || caller != 0 || self.paused {
                     return false;
                 }
                 self.paused = true;
                 true
             }
             Step::Unpause { caller, signed } => {
-                if k != Kind::PausableExample || !signed || caller != 0 || !self.paused {
+                if !pausable || !signed || caller != 0 || !self.paused {
                     return false;
                 }
                 self.paused = false;
                 true
             }
             Step::List { user, on, operator, signed } => {
-                if matches!(k, Kind::PausableExample | Kind::CappedExample) {
+                if matches!(k, Kind::PausableExample | Kind::CappedExample | Kind::PausableCounter) {
                     return false;
                 }
                 let needs_role = matches!(k, Kind::AllowExample | Kind::BlockExample);
@@ -252,7 +279,7 @@ impl Check for Gates {
         }
     }
     fn components(&self) -> serde_json::Value {
-        serde_json::json!({"real": ["examples/fungible-{pausable,allowlist,blocklist,capped} (from source)", "AllowList / BlockList wrappers wiring every library override", "pausable storage + when_not_paused macro", "capped::check_cap"], "stub": ["Wallet"]})
+        serde_json::json!({"real": ["examples/fungible-{pausable,allowlist,blocklist,capped} and examples/pausable (from source)", "AllowList / BlockList wrappers wiring every library override", "pausable storage + when_not_paused macro", "capped::check_cap"], "stub": ["Wallet"]})
     }
     fn dup_ok(&self, _s: &Step) -> bool {
         true
@@ -261,12 +288,12 @@ impl Check for Gates {
         true
     }
     fn generate(&self, rng: &mut Rng, tier: Tier) -> (Cfg, std::vec::Vec<Step>) {
-        let kind = *rng.pick(&[Kind::PausableExample, Kind::AllowExample, Kind::AllowWrapper, Kind::BlockExample, Kind::BlockWrapper, Kind::CappedExample]);
+        let kind = *rng.pick(&[Kind::PausableExample, Kind::PausableExample, Kind::AllowExample, Kind::AllowWrapper, Kind::BlockExample, Kind::BlockWrapper, Kind::CappedExample, Kind::CappedExample, Kind::PausableCounter]);
         let cfg = Cfg { kind, actors: 4, cap: match rng.below(4) { 0 => 0, 1 => i128::MAX, _ => 1000 + rng.below(100_000) as i128 } };
         let n = cfg.actors as u64;
         let nsteps = if tier == Tier::Quick { 25 + rng.below(40) } else { 25 + rng.below(90) } as usize;
         let mut m = Model::default();
-        if !matches!(kind, Kind::CappedExample | Kind::AllowWrapper | Kind::BlockWrapper) {
+        if !matches!(kind, Kind::CappedExample | Kind::AllowWrapper | Kind::BlockWrapper | Kind::PausableCounter) {
             m.bal.insert(0, 1_000_000);
             m.supply = 1_000_000;
         }
@@ -275,6 +302,18 @@ impl Check for Gates {
         }
         let mut steps = vec![];
         for _ in 0..nsteps {
+            if kind == Kind::PausableCounter {
+                let any = |rng: &mut Rng| rng.below(n) as usize;
+                let s = match rng.below(10) {
+                    0..=1 => Step::Pause { caller: if rng.chance(85) { 0 } else { any(rng) }, signed: !rng.chance(8) },
+                    2..=3 => Step::Unpause { caller: if rng.chance(85) { 0 } else { any(rng) }, signed: !rng.chance(8) },
+                    4..=7 => Step::Increment,
+                    _ => Step::EmergencyReset,
+                };
+                m.apply(&cfg, &s);
+                steps.push(s);
+                continue;
+            }
             let any = |rng: &mut Rng| rng.below(n) as usize;
             let holders: std::vec::Vec<usize> = (0..cfg.actors).filter(|a| m.b(*a) > 0).collect();
             let holder = |rng: &mut Rng| if holders.is_empty() || rng.chance(12) { rng.below(n) as usize } else { *rng.pick(&holders) };
@@ -315,11 +354,12 @@ impl Check for Gates {
             Kind::AllowExample => e.register(allow_ex::c::ExampleContract, (nm.clone(), nm.clone(), a(0), a(1), 1_000_000i128)),
             Kind::BlockExample => e.register(block_ex::c::ExampleContract, (nm.clone(), nm.clone(), a(0), a(1), 1_000_000i128)),
             Kind::CappedExample => e.register(capped_ex::c::ExampleContract, (cfg.cap,)),
+            Kind::PausableCounter => e.register(counter_ex::c::ExampleContract, (a(0),)),
             Kind::AllowWrapper => e.register(AllowTok, ()),
             Kind::BlockWrapper => e.register(BlockTok, ()),
         };
         let mut m = Model::default();
-        if !matches!(cfg.kind, Kind::CappedExample | Kind::AllowWrapper | Kind::BlockWrapper) {
+        if !matches!(cfg.kind, Kind::CappedExample | Kind::AllowWrapper | Kind::BlockWrapper | Kind::PausableCounter) {
             m.bal.insert(0, 1_000_000);
             m.supply = 1_000_000;
         }
@@ -337,7 +377,15 @@ impl Check for Gates {
         let qi = |f: &str, args: Vec<Val>| -> i128 { e.invoke_contract::<i128>(&id, &Symbol::new(e, f), args) };
         for (i, s) in steps.iter().enumerate() {
             let before = w.storage_digest(&[&id]);
+            let mut returned: Option<i32> = None;
             let (kind, got) = match s {
+                Step::Increment => {
+                    w.set_auth(&[]);
+                    let r = e.try_invoke_contract::<i32, soroban_sdk::Error>(&id, &Symbol::new(e, "increment"), ().into_val(e));
+                    returned = r.ok().and_then(|x| x.ok());
+                    ("increment", returned.is_some())
+                }
+                Step::EmergencyReset => ("emergency_reset", call("emergency_reset", ().into_val(e), None)),
                 Step::Pause { caller, signed } => ("pause", call("pause", (a(*caller),).into_val(e), signed.then_some(*caller))),
                 Step::Unpause { caller, signed } => ("unpause", call("unpause", (a(*caller),).into_val(e), signed.then_some(*caller))),
                 Step::List { user, on, operator, signed } => {
@@ -367,11 +415,44 @@ impl Check for Gates {
                     Step::Approve { owner, .. } => format!("{:?}.{kind}/owner-{}", cfg.kind, party(*owner)),
                     _ => format!("{:?}.{kind}", cfg.kind),
                 };
-                let check = if got { if snapshot.paused { "pause.gated_fail_while_paused" } else if matches!(s, Step::Mint { .. }) && cfg.kind == Kind::CappedExample { "cap.never_exceeded" } else { "gate" } } else { "live.open_gate_succeeds" };
+                let check = if matches!(s, Step::Pause { .. } | Step::Unpause { .. }) { if got { "pause.alternation_and_owner_only" } else { "pause.alternation_live" } } else if matches!(s, Step::EmergencyReset) && got { "pause.when_paused_only" } else if got { if snapshot.paused { "pause.gated_fail_while_paused" } else if matches!(s, Step::Mint { .. }) && cfg.kind == Kind::CappedExample { "cap.never_exceeded" } else { "gate" } } else { "live.open_gate_succeeds" };
                 return Err(violation(check, &disc, i, format!("{s:?}: real {got} model {exp}; paused={} listed={:?} supply={} cap={}", snapshot.paused, snapshot.listed, snapshot.supply, cfg.cap)));
             }
             if !got && w.storage_digest(&[&id]) != before {
                 return Err(violation("fail.no_trace", kind, i, format!("{s:?}")));
+            }
+            let qb = |f: &str, args: Vec<Val>| -> Option<bool> { e.try_invoke_contract::<bool, soroban_sdk::Error>(&id, &Symbol::new(e, f), args).ok().and_then(|r| r.ok()) };
+            if matches!(cfg.kind, Kind::PausableExample | Kind::PausableCounter) && qb("paused", ().into_val(e)) != Some(m.paused) {
+                return Err(violation("pause.state_eq", "paused", i, format!("paused() != model {} after {s:?}", m.paused)));
+            }
+            if cfg.kind == Kind::PausableCounter {
+                if let (Step::Increment, true) = (s, got) {
+                    // works again unchanged after unpausing: the counter continues from the model's value
+                    if returned != Some(m.counter) {
+                        return Err(violation("pause.reopens_unchanged", "increment", i, format!("increment returned {returned:?}, model {}", m.counter)));
+                    }
+                }
+                st.state(&(cfg.kind as u8, m.paused, m.counter.min(3)));
+                continue;
+            }
+            // list changes take effect immediately and idempotently: the getter mirrors the model for every user
+            for x in 0..cfg.actors {
+                let (f, want) = match cfg.kind {
+                    Kind::AllowExample | Kind::AllowWrapper => ("allowed", m.listed.contains(&x)),
+                    Kind::BlockExample | Kind::BlockWrapper => ("blocked", m.listed.contains(&x)),
+                    _ => break,
+                };
+                if qb(f, (a(x),).into_val(e)) != Some(want) {
+                    return Err(violation("list.idempotent_immediate", f, i, format!("{f}(actor {x}) != model {want} after {s:?}")));
+                }
+            }
+            for o in 0..cfg.actors {
+                for sp in 0..cfg.actors {
+                    let al = qi("allowance", (a(o), a(sp)).into_val(e));
+                    if al != *m.allow.get(&(o, sp)).unwrap_or(&0) {
+                        return Err(violation("state.model_eq", "allowance", i, format!("allowance({o},{sp}) = {al}, model {:?} after {s:?}", m.allow.get(&(o, sp)))));
+                    }
+                }
             }
             for x in 0..cfg.actors {
                 if qi("balance", (a(x),).into_val(e)) != m.b(x) {
